@@ -54,6 +54,17 @@ func Load(harnessDir string) (*Loaded, error) {
 	if err != nil {
 		return nil, err
 	}
+	genDir := filepath.Join(verifDir, ".gen")
+	if err := writeGenerated(genDir); err != nil {
+		return nil, err
+	}
+	gov, err := harnessOverlay(genDir, false)
+	if err != nil {
+		return nil, err
+	}
+	for k, v := range gov {
+		ov[k] = v
+	}
 	cfg := &packages.Config{Mode: packages.LoadAllSyntax, Dir: repoDir, Overlay: ov,
 		Env: append(os.Environ(), "GOFLAGS=-mod=mod", "GOPROXY=off", "GOSUMDB=off", "GOTOOLCHAIN=local")}
 	pkgs, err := packages.Load(cfg, ".", "./fastlog", "./handlers/...")
@@ -223,14 +234,14 @@ func (e *Engine) initStep(st *State, th *Thread) (err error) {
 				fr.ip++
 				return nil
 			}
-			e.ld.initRan[path] = true
+			e.initRan[path] = true
 			nf := e.pushFrame(st, th, callee, nil, nil, nil)
 			nf.isInit = true
 			return nil
 		}
 	}
 	if fr.isInit && fr.fn.Pkg != nil {
-		e.ld.initRan[fr.fn.Pkg.Pkg.Path()] = true
+		e.initRan[fr.fn.Pkg.Pkg.Path()] = true
 	}
 	e.step(st, th)
 	return nil
